@@ -265,26 +265,32 @@ def check_f_setter(ctx, ck, rule='R-FRESH.setter', with_resets=True):
     prog = ctx.program
     m = ctx.model
     # frequency setter
+    # on the symbolic walk of the setter (tables of (name, factor) rows with setattr, helpers that do the
+    # resets looked through): every attribute of self it stores, as a closed expression of the new frequency
+    from ..symx import SymExec
     st = m.func('mininec.Mininec.f@setter')
-    sfl = ctx.flow(st)
+    fparam = st.params[1] if len(st.params) > 1 else 'frq'
+    spaths = [p_ for p_ in SymExec(ctx, st, bind_loops=True, effects=True, depth=3, max_paths=500).run() if p_.end != 'raise']
+    if len(spaths) != 1:
+        raise AnalysisError('%s: %d paths through the frequency setter' % (st.qual, len(spaths)))
     derived = {}
     resets = []
-    for n in walk_no_nested(st.node):
-        if isinstance(n, ast.Assign):
-            for t in n.targets:
-                if isinstance(t, ast.Attribute) and isinstance(t.value, ast.Name) and t.value.id == 'self':
-                    if isinstance(n.value, ast.Constant) and n.value.value is None:
-                        resets.append((t.attr, n))
-                    else:
-                        derived[t.attr] = n
+    for ev in spaths[0].events:
+        if ev[0] != 'store' or not ev[1].startswith('self.') or '[' in ev[1] or ev[1].count('.') != 1:
+            continue
+        a_ = ev[1][len('self.'):]
+        if isinstance(ev[2], ast.Constant) and ev[2].value is None:
+            resets.append((a_, ev[3]))
+        else:
+            derived[a_] = (ev[2], ev[3])
     ck.floor('wavelength constants derived in the f setter', len(derived), 5)
     freq_attrs = set(derived)
-    for a, n in sorted(derived.items()):
-        r = sfl.roots(n.value, sfl.node_id_of(n))
-        ext = [x for x in r if x[0] == 'attr' and x[1].startswith('self.') and
-               x[1].split('.')[1] not in freq_attrs | {'f'}]
-        ext += [x for x in r if x[0] == 'param' and x[1] not in ('frq', 'self')]
-        ck.ob(rule, '%s|%s' % (st.qual, a), not ext, st.loc(n),
+    for a, (val_, n) in sorted(derived.items()):
+        ext = sorted({norm(x_) for x_ in ast.walk(val_) if isinstance(x_, ast.Attribute) and isinstance(x_.value, ast.Name)
+                      and x_.value.id == 'self' and x_.attr not in freq_attrs | {'f', '_f'}})
+        ext += sorted({x_.id for x_ in ast.walk(val_) if isinstance(x_, ast.Name) and isinstance(x_.ctx, ast.Load) and
+                       x_.id not in (fparam, 'self', 'np', 'math', 'numpy') and x_.id in st.all_params})
+        ck.ob(rule, '%s|%s' % (st.qual, a), not ext, st.loc(n) if n is not None else st.loc(),
               'self.%s derives from the frequency only' % a if not ext else
               'self.%s depends on %s' % (a, ext))
     # single writer of the frequency constants
